@@ -212,14 +212,15 @@ impl JsValue {
                 .and_then(|y| x.checked_pow(y))
                 .map_or_else(|| Self::new(f64::from(x).powi(y)), Self::new),
             (JsVariant::Float64(x), JsVariant::Float64(y)) => {
-                if x.abs() == 1.0 && y.is_infinite() {
+                // Number::exponentiate: a NaN exponent gives NaN (`powf(1.0, NaN)` is 1.0)
+                if y.is_nan() || (x.abs() == 1.0 && y.is_infinite()) {
                     Self::nan()
                 } else {
                     Self::new(x.powf(y))
                 }
             }
             (JsVariant::Integer32(x), JsVariant::Float64(y)) => {
-                if x.wrapping_abs() == 1 && y.is_infinite() {
+                if y.is_nan() || (x.wrapping_abs() == 1 && y.is_infinite()) {
                     Self::nan()
                 } else {
                     Self::new(f64::from(x).powf(y))
@@ -231,7 +232,7 @@ impl JsValue {
             // Slow path:
             (_, _) => match (self.to_numeric(context)?, other.to_numeric(context)?) {
                 (Numeric::Number(a), Numeric::Number(b)) => {
-                    if a.abs() == 1.0 && b.is_infinite() {
+                    if b.is_nan() || (a.abs() == 1.0 && b.is_infinite()) {
                         Self::nan()
                     } else {
                         Self::new(a.powf(b))
@@ -784,7 +785,7 @@ impl JsValue {
         }
         let x = self.as_number_cheap()?;
         let y = other.as_number_cheap()?;
-        if x.abs() == 1.0 && y.is_infinite() {
+        if y.is_nan() || (x.abs() == 1.0 && y.is_infinite()) {
             Some(Self::nan())
         } else {
             Some(Self::new(x.powf(y)))
